@@ -20,6 +20,12 @@ Oracle (independent of the Lean model; evaluated on cases with complete, consist
   min-power       such a p > 0 is >= the sum of the groups' consume-side min_power, p < 0: -p >= supply-side sum.
 Irregular topologies (chains, partially shared inverters): the battery sets are whatever the real maps derive; when
 they overlap (regime `OverlappingBatterySets`, computed from the graph alone) the min-power clause is a known finding.
+Streamed path (histories): ONE real `SendOnUpdate(PowerBoundsCalculator)` (asyncio tasks, virtual clock, mocked API
+channels — what `BatteryPool._system_power_bounds` is made of) is fed with sequences of component data (slow drifts
+< 0.1 % per sample that accumulate, jumps, repeats, one component changing while the others stay); after every
+sample, once the update interval has elapsed, the bounds it STREAMED take the place of `adv` in the clauses above
+and are checked against the real manager on the latest data (`C17_stream_is_latest` is the model side; a case with a
+`stream` key = the last sample of such a history, replayable).
 A small stream also runs the real `SendOnUpdate(PowerBoundsCalculator)` with its asyncio tasks on the virtual clock
 and requires the streamed `SystemBounds` to equal the one computed through the synchronous seam.
 Correspondence: the same case through `Drivers/PoolBounds.lean`, all outputs compared exactly (rationals as n/d);
@@ -41,7 +47,10 @@ RULE = ("1-4 battery sets of 1-3 batteries x 1-3 inverters; per-component bounds
         "every advertised and enforced bound ± {0, 1/1024, 1/2, 1} plus 0, ±2^-31, ±2^-29; 8% irregular (chained / partially "
         "shared) topologies whose battery sets are the ones the real maps derive (overlapping sets = regime "
         "OverlappingBatterySets).  non-trivial = oracle-domain case with >= 2 components in some set and "
-        "a non-degenerate exclusion zone; distinct by canonical JSON hash")
+        "a non-degenerate exclusion zone; distinct by canonical JSON hash.  Plus histories of 3-9 samples on a fixed "
+        "topology through ONE real SendOnUpdate(PowerBoundsCalculator) (asyncio tasks, virtual clock): drifts of 1/1500.."
+        "1/20000 per sample that accumulate, jumps, repeats, one component changing while the others stay; after every "
+        "sample the STREAMED bounds are checked against the real manager on the latest data")
 
 
 def anchors_of(adv: dict | None, enf: dict | None) -> list[Fraction]:
@@ -215,12 +224,111 @@ def check_irregular(ctx: Ctx, topo: dict, rng: random.Random, powers: list[str] 
     return case, impl
 
 
+# ---- the streamed path: histories of component data through the real SendOnUpdate
+def gen_stream_steps(rng: random.Random) -> list[list[dict]]:
+    """A history of 3-9 samples of complete, consistent data on a fixed topology: slow drifts (every bound of one or of
+    all components moves by 1/1500 … 1/20000 per sample and keeps going, so the total grows while each step stays
+    below any "noise" threshold), jumps to new lattice values, repeats, one component changing while the others
+    stay, a drift that stops."""
+    import copy
+
+    for _ in range(20):
+        groups = g.gen_c17_groups(rng, True, incomplete=0.0)
+        if g.is_complete(groups) and g.is_consistent(groups) and not g.manager_unmodelled(groups) \
+                and all(b["working"] for gr in groups for b in gr["bats"]):
+            break
+    else:
+        for gr in groups:
+            for b in gr["bats"]:
+                b["working"] = True
+    steps = [groups]
+    comps = lambda gs: [c for gr in gs for c in gr["bats"] + gr["invs"]]  # noqa: E731
+    mode = rng.choice(["drift-one", "drift-one", "drift-all", "drift-then-stop", "mixed", "mixed", "jump", "repeat"])
+    eps = Fraction(1, rng.choice([1500, 2000, 2000, 5000, 20000]))
+    target = rng.randrange(len(comps(groups)))
+    keys = rng.choice([("il", "el", "eu", "iu"), ("il", "iu"), ("el", "eu"), ("iu",), ("eu",), ("il", "iu")])
+    grow = rng.random() < 0.3
+    n = rng.randint(3, 9)
+    for k in range(1, n):
+        nxt = copy.deepcopy(steps[-1])
+        cs = comps(nxt)
+        kind = mode
+        if mode == "mixed":
+            kind = rng.choice(["drift-one", "drift-all", "jump", "repeat", "drift-one"])
+        if mode == "drift-then-stop" and k > n // 2:
+            kind = "repeat"
+        chosen = [cs[target]] if kind in ("drift-one", "drift-then-stop") else (cs if kind == "drift-all" else [])
+        for c in chosen:
+            for key in keys:
+                v = Fraction(c[key])
+                # inclusion bounds shrink / exclusion bounds grow (or the other way round), staying ordered
+                f = (1 + eps) if (key in ("el", "eu")) != grow else (1 - eps)
+                c[key] = g.out_rat(v * f) if hasattr(g, "out_rat") else str(v * f)
+        if kind == "jump":
+            c = rng.choice(cs)
+            c.update(g.gen_component_bounds(rng, True))
+        if not g.is_consistent(nxt):
+            nxt = copy.deepcopy(steps[-1])
+        steps.append(nxt)
+    return steps
+
+
+def check_stream(ctx: Ctx, steps: list[list[dict]], rng: random.Random, cases: list, outs: list,
+                 powers: list[str] | None = None, only_last: bool = False) -> None:
+    """Every sample of the history: the bounds streamed by the real `SendOnUpdate` after that sample vs the real manager
+    on the data of that sample — the C17 clauses with `adv` := the STREAMED value (what a subscriber of the pool acts
+    on), and the model (bounds of the latest data) compared with it."""
+    streamed = g.run_c17_stream(steps)
+    for k, (groups, st) in enumerate(zip(steps, streamed)):
+        if only_last and k != len(steps) - 1:
+            continue
+        bats, invs = g.flat(groups)
+
+        def power_fn(adv, enf):
+            both = anchors_of(adv, enf) + (anchors_of(st, None) if isinstance(st, dict) else [])
+            return g.boundary_powers(rng, sorted(set(both)), k=14)
+
+        impl = g.run_c17_impl(bats, invs, g.group_edges(groups), powers if (powers is not None and k == len(steps) - 1) else power_fn)
+        case = {"groups": groups, "powers": impl.pop("powers"), "stream": steps[:k]}
+        sync_adv = impl["adv"]
+        if st == "nothing-streamed":
+            ctx.violation("stream-silent", case, {"synchronous": sync_adv, "why": "nothing streamed after complete data"})
+            st = None
+        impl["adv"] = st
+        if isinstance(st, dict):
+            a = {x: Fraction(v) for x, v in st.items()}
+            # `Power in SystemBounds`: inside the (closed) inclusion bounds and not inside the CLOSED exclusion bounds
+            impl["contains"] = [bool(a["il"] <= Fraction(p) <= a["iu"] and not a["el"] <= Fraction(p) <= a["eu"])
+                                for p in case["powers"]]
+        oracle(ctx, case, impl)
+        tags = ["stream", f"stream:sample-{min(k, 5)}{'+' if k >= 5 else ''}"]
+        if k > 0:
+            prev, cur = g.flat(steps[k - 1]), g.flat(groups)
+            changed = [c1["id"] for p, c in zip(prev, cur) for c0, c1 in zip(p, c) if c0 != c1]
+            tags.append("stream:unchanged-sample" if not changed else
+                        ("stream:one-component-changed" if len(changed) == 1 else "stream:several-components-changed"))
+            rel = [abs(Fraction(c1[x]) - Fraction(c0[x])) / abs(Fraction(c0[x])) for p, c in zip(prev, cur)
+                   for c0, c1 in zip(p, c) for x in ("il", "el", "eu", "iu") if c0[x] != c1[x] and Fraction(c0[x]) != 0]
+            if rel and max(rel) < Fraction(1, 1000):
+                tags.append("stream:drift<0.1%")
+            elif rel:
+                tags.append("stream:jump")
+        if st != sync_adv:
+            tags.append("stream:stale")
+        ctx.case(case, tags=tags, nontrivial=k > 0)
+        cases.append(case)
+        outs.append(impl)
+
+
 def load_corpus() -> list[dict]:
     d = pathlib.Path(__file__).resolve().parent.parent / "corpus" / "C17"
     return [json.loads(p.read_text()) for p in sorted(d.glob("*.json"))] if d.exists() else []
 
 
 def run_case_json(ctx: Ctx, case: dict, rng: random.Random, cases: list, outs: list) -> None:
+    if "stream" in case:  # the last sample of a history through the real SendOnUpdate
+        check_stream(ctx, list(case["stream"]) + [case["groups"]], rng, cases, outs, powers=case.get("powers"), only_last=True)
+        return
     if "topology" in case:  # the battery sets ("groups") are re-derived by the real code
         c, o = check_irregular(ctx, case["topology"], rng, powers=case.get("powers"))
     else:
@@ -265,6 +373,9 @@ def run(ctx: Ctx) -> None:
         if "raised" not in o and streamed != o["adv"]:
             ctx.mismatch(c, {"streamed_by_SendOnUpdate": streamed}, {"synchronous_seam": o["adv"]},
                          "bounds streamed by the real SendOnUpdate vs PowerBoundsCalculator driven synchronously")
+    # histories: the bounds a subscriber sees after every sample vs the manager on the same latest data
+    for i in range(ctx.budget(45, 700)):
+        check_stream(ctx, gen_stream_steps(ctx.subrng("stream", i)), ctx.subrng("stream-powers", i), cases, outs)
     if ctx.tier == "thorough":
         # bounded-exhaustive small scope: two 1:1 battery sets, every combination of exclusion / inclusion bounds from a
         # small lattice on the battery and on the inverter (symmetric lower bounds), powers on/next to every bound
